@@ -94,6 +94,8 @@ Section Equal.
           | Some ta, Some tb =>
             if opt_nat_eqb a_idx b_idx then Ok (true, st)
             else if negb (path_eqb (t_path ta) (t_path tb)) then Ok (false, st)
+            (* F2 repair: different numbers of non-skipped parameters are never equal *)
+            else if negb (Nat.eqb (List.length (param_ids ta)) (List.length (param_ids tb))) then Ok (false, st)
             else
               let ap' := glist_extend ap (t_params ta) in
               let bp' := glist_extend bp (t_params tb) in
